@@ -380,9 +380,8 @@ fn extern_stmt(p: &mut Parser<'_>, m: Marker) {
     if p.at(T!['(']) {
         params::scalar_type_list(p);
     }
-    if !opt_return_signature(p) {
-        p.error("expected return signature in extern statement");
-    }
+    // The return signature is optional: `extern f(int);` declares a routine that returns nothing.
+    opt_return_signature(p);
     p.expect(T![;]);
     m.complete(p, EXTERN_STMT);
 }
